@@ -17,17 +17,22 @@ type PropSpec struct {
 var properties = map[string]PropSpec{
 	"C19": {
 		Level: "other",
-		Explanation: "Explicitly narrow: necessary conditions of C19 only. MOVE: implode stores through the header exactly twice per step - the gap receives a non-nil value loaded from a later slot of the same stack (source slot = destination slot + a count proved >= 0) and exactly that source slot is then cleared - and stores no header: compaction moves existing values forward and fabricates, duplicates or drops nothing by itself. SCAN: implode's loop can be left only when the scan limit is reached (max <= count) or the slot about to be examined lies beyond the content (ulen <= start+count), by linear entailment at every exit - the last slot is examined too. GAP: defrag compacts, records an error and truncates only on paths where a nil element was found below the scan limit; a stack without nil elements is untouched. ERR: the error recorded is verifyImplode's own verdict and the header is truncated only under a nil verdict, after the compaction. NEST: Stack.Defrag consults IsNesting on every path on which the receiver was defragmented, visits elements 0..Len-1 in order and hands nested Stacks - direct elements or a Condition's expression, through both alias converters - the same scan limit. MAX: the scan limit is positive (50 unless a positive one is given). Index and slice ranges of defrag/implode/verifyImplode are C08's obligations (one of them, the truncation index, is the recorded assumption).",
+		Explanation: "Explicitly narrow: necessary conditions of C19 only. MOVE: implode stores through the header exactly twice per step - the gap receives a non-nil value loaded from a later slot of the same stack (source slot = destination slot + a count proved >= 0) and exactly that source slot is then cleared - and stores no header: compaction moves existing values forward and fabricates, duplicates or drops nothing by itself. SCAN: implode's loop can be left only when the scan limit is reached (max <= count) or the slot about to be examined lies beyond the content (ulen <= start+count), by linear entailment at every exit - the last slot is examined too. GAP: defrag compacts, records an error and truncates only on paths where a nil element was found below the scan limit; a stack without nil elements is untouched. ERR: the error recorded is verifyImplode's own verdict and the header is truncated only under a nil verdict, after the compaction. NEST: Stack.Defrag consults IsNesting on every path on which the receiver was defragmented, visits elements 0..Len-1 in order and hands nested Stacks - direct elements or a Condition's expression, through both alias converters - the same scan limit. MAX: the scan limit is positive (50 unless a positive one is given). Index and slice ranges of defrag/implode/verifyImplode are C08's obligations (one of them, the truncation index, is the recorded assumption). What Defrag relies on is checked as well: stack.index's found flag means exactly 'the slot is not nil' (R-SEQ), IsNesting is truthful and uncached (R-SCAN, R-TT), and calculateDefragMax returns a positive request as given (no ceiling).",
 		NotDecided: "THE CORE OF C19 IS NOT DECIDED: that the result holds exactly the former non-nil elements in order, that Len equals their count and that Err() is nil. The truncation index and the verdict come from verifyImplode's pattern bookkeeping (a map filled in the same loop), a functional property of data out of reach of these domains. The pinned tree is in fact known - from an exhaustive run over all nil patterns of length <= 8 made by an independent test agent, not from this check - to violate the core for most patterns (e.g. Push(\"x\",nil,\"y\").Defrag() leaves [x y nil]; Push(nil,nil,nil,nil,4).Defrag() loses 4); the pinned test TestDefrag_experimental_001 hard-codes the resulting (wrong) length, so no repair can keep the unedited suite passing and none was made. This check neither reports nor masks that defect.",
 		Run: func(c *Ctx) {
 			c.ruleInv()
 			c.ruleDefrag()
+			// what Defrag relies on: "vacant" means nil and nothing else (stack.index's found flag),
+			// and IsNesting tells the truth about nested stacks (no stale verdict)
+			c.seqIndex()
+			c.ruleScanNesting()
+			c.ttIsNestingWrappers()
 			c.rep.floor("R-DEFRAG", 4)
 		},
 	},
 	"C02": {
 		Level: "other",
-		Explanation: "Structural clauses of the String() grammar, each a necessary condition whose violation changes the rendering. NOT: in the Stack branch of defaultAssertionHandler every stack-level reading (kind, symbol, rendering) is made on the nested, converted Stack - never on the enclosing one; the NOT word is prefixed only on paths where the nested kind is NOT, it has no symbol and its rendering is non-empty (an empty nested stack contributes nothing: no dangling operator), and the word is exactly the one typ() of the nested stack returned, i.e. in the NOT stack's own case. EMPTY: stack.string collects renderings only by append(list, val) under len(val) > 0 for the very value defaultAssertionHandler returned for slot i (i = 1, 2, ... in stored order) and hands exactly that list to the assembler, so BASIC stacks, empty stacks and invalid Conditions (which render to the empty string) leave no dangling operator or delimiter. UTF8: condenseWHSP ranges over runes, writes every rune except blank (32) and tab (9) unchanged, writes one blank only for a blank or tab and uses no Unicode class test - leaf text of any script is reproduced verbatim. ENCAP: encapValue walks the pair list from the last pair to the first and wraps the value built so far as L+v+R or c+v+c, so the first configured pair ends up outermost; Condition expressions pass through it on every rendering path (R-ENCAP in C06). PAREN: stack.paren wraps exactly when the parenthetical bit is set and the kind is not BASIC (table over both atoms), with the same padding left and right. INVALID: the unguarded Condition renderer condition.string is called, anywhere in the package, only where Valid() of that very Condition has just returned nil. LEAF: in defaultAssertionHandler the text of a leaf (own String method, primitive stringer) goes to the enclosing stack's encapv and from there to padValue and the result, nothing in between; encapv hands its argument and the receiver's own pair list to encapValue; encapValue returns the bare argument only when no pair is configured (the empty string is wrapped like any other text). JOIN: a small symbolic string evaluator (constants, concatenation, path-bound phis, padValue - whose own table is checked first) computes the separator handed to join on every path of assembleStringStack and compares it with the table: word operator -> blank(s) word blank(s); symbol -> blank(s) symbol blank(s), or the bare symbol under no-padding; LIST -> the delimiter when one is set, otherwise blanks only; all five rows must reach a join. LEADONCE: the leading operator of lead-once mode is written only where at least one element rendering follows (an empty stack contributes no dangling operator). Rendering is gated by canString (valid and kind not BASIC) and the presentation policy dispatch (C14); option polarity of the getters is C18.",
+		Explanation: "Structural clauses of the String() grammar, each a necessary condition whose violation changes the rendering. NOT: in the Stack branch of defaultAssertionHandler every stack-level reading (kind, symbol, rendering) is made on the nested, converted Stack - never on the enclosing one; the NOT word is prefixed only on paths where the nested kind is NOT, it has no symbol and its rendering is non-empty (an empty nested stack contributes nothing: no dangling operator), and the word is exactly the one typ() of the nested stack returned, i.e. in the NOT stack's own case. EMPTY: stack.string collects renderings only by append(list, val) under len(val) > 0 for the very value defaultAssertionHandler returned for slot i (i = 1, 2, ... in stored order) and hands exactly that list to the assembler, so BASIC stacks, empty stacks and invalid Conditions (which render to the empty string) leave no dangling operator or delimiter. UTF8: condenseWHSP ranges over runes, writes every rune except blank (32) and tab (9) unchanged, writes one blank only for a blank or tab and uses no Unicode class test - leaf text of any script is reproduced verbatim. ENCAP: encapValue walks the pair list from the last pair to the first and wraps the value built so far as L+v+R or c+v+c, so the first configured pair ends up outermost; Condition expressions pass through it on every rendering path (R-ENCAP in C06). PAREN: stack.paren wraps exactly when the parenthetical bit is set and the kind is not BASIC (table over both atoms), with the same padding left and right. INVALID: the unguarded Condition renderer condition.string is called, anywhere in the package, only where Valid() of that very Condition has just returned nil. LEAF: in defaultAssertionHandler the text of a leaf (own String method, primitive stringer) goes to the enclosing stack's encapv and from there to padValue and the result, nothing in between; encapv hands its argument and the receiver's own pair list to encapValue; encapValue returns the bare argument only when no pair is configured (the empty string is wrapped like any other text). JOIN: a small symbolic string evaluator (constants, concatenation, path-bound phis, padValue - whose own table is checked first) computes the separator handed to join on every path of assembleStringStack and compares it with the table: word operator -> blank(s) word blank(s); symbol -> blank(s) symbol blank(s), or the bare symbol under no-padding; LIST -> the delimiter when one is set, otherwise blanks only; all five rows must reach a join. LEADONCE: the leading operator of lead-once mode is written only where at least one element rendering follows (an empty stack contributes no dangling operator). Rendering is gated by canString (valid and kind not BASIC) and the presentation policy dispatch (C14); option polarity of the getters is C18. VERBATIM: the getters the rendering code uses for the symbol and the LIST delimiter return the stored configuration field itself (nothing is applied on the way), and stack.typ hands a configured symbol on untouched - case folding applies to operator words only.",
 		NotDecided: "equality of the produced string with the canonical rendering over trees x option combinations as a whole (lead-once layout, fold, the outer padding and its condensation): string-valued functional correctness, out of reach of a static argument here.",
 		Run: func(c *Ctx) {
 			c.ruleInv()
@@ -95,6 +100,7 @@ var properties = map[string]PropSpec{
 			}
 			c.ruleCanif()
 			c.ruleMethodValue()
+			c.ruleIfaceCompare()
 			c.ruleLabels()
 			c.ruleCondRow()
 			c.ruleCondStores() // a wrongly typed or nil-pointer operator in a CONDITION row is refused, not invoked
@@ -161,6 +167,7 @@ var properties = map[string]PropSpec{
 			c.ruleCensus(scope, map[string]bool{"R-NIL": true, "R-REFL": true, "R-TA": true, "R-BND": true})
 			c.ruleCanif()
 			c.ruleMethodValue()
+			c.ruleIfaceCompare()
 			c.ruleReflComplete(scope)
 			c.ruleEqLoops(scope)
 			c.ruleEqNilRet(scope)
@@ -191,7 +198,7 @@ var properties = map[string]PropSpec{
 	},
 	"C01": {
 		Level: "other",
-		Explanation: "Each mutator is verified, once and for all inputs, against the list operation the property names, by a symbolic sequence algebra over the SSA: the header a mutator leaves behind is evaluated on every path as a concatenation of segments of the header it found (h0) and single values, and compared with the specification by linear entailment (Fourier-Motzkin). Pop: h0 without slot k and the value returned is h0[k], k = 1 under FIFO and len-1 otherwise; untouched header and (nil,false) when empty. Insert: h0 with x inserted exactly once at the clamped position (end when left >= Len, front when left <= 0, slot left+1 otherwise), everything else unchanged and in order, flag false on non-storing paths. Reset: h0[:1]. Replace: one element store of the argument at slot i+1, flag true exactly when stored. Swap: two element stores exchanging the values found at slots i+1 and j+1. Reverse: the loop exchanges mirror slots (a + b == len, by a conserved-sum loop invariant), starting at (1, len-1), one step per iteration, a <= b in the body and a >= b at every exit (no pair skipped, none exchanged twice). Remove: a filter loop over slots 1..len-1 in ascending order keeping every slot except the looked-up position, stored as [configuration] ++ kept, returning the element looked up. Push: both append loops visit x[0], x[1], ... one per iteration and append at the end of the current header (nil values included: no nil test). stack.index: i in [0,Len) addresses slot i+1, -k slot len-k, an oversize index the last slot (options on), and the value returned is the slot at the position returned. The nine exported wrappers hand their arguments to the worker unchanged and return its results. R-SLOT0: no header store or element store can lose, move or overwrite the configuration slot, so Len() == len(header)-1 always (R-CAPEQ Stack.Len). R-ELEMINDEP: Reset does not depend on element values. Since every mutator is a list operation on the header it finds, the content after any sequential history is that of the ordered list, by induction on the history. R-CAPEQ (from C03): the fullness test both push loops rely on is exactly len(header) == configured capacity (not the backing array's).",
+		Explanation: "Each mutator is verified, once and for all inputs, against the list operation the property names, by a symbolic sequence algebra over the SSA: the header a mutator leaves behind is evaluated on every path as a concatenation of segments of the header it found (h0) and single values, and compared with the specification by linear entailment (Fourier-Motzkin). Pop: h0 without slot k and the value returned is h0[k], k = 1 under FIFO and len-1 otherwise; untouched header and (nil,false) when empty. Insert: h0 with x inserted exactly once at the clamped position (end when left >= Len, front when left <= 0, slot left+1 otherwise), everything else unchanged and in order, flag false on non-storing paths. Reset: h0[:1]. Replace: one element store of the argument at slot i+1, flag true exactly when stored. Swap: two element stores exchanging the values found at slots i+1 and j+1. Reverse: the loop exchanges mirror slots (a + b == len, by a conserved-sum loop invariant), starting at (1, len-1), one step per iteration, a <= b in the body and a >= b at every exit (no pair skipped, none exchanged twice). Remove: a filter loop over slots 1..len-1 in ascending order keeping every slot except the looked-up position, stored as [configuration] ++ kept, returning the element looked up. Push: both append loops visit x[0], x[1], ... one per iteration and append at the end of the current header (nil values included: no nil test). stack.index: i in [0,Len) addresses slot i+1, -k slot len-k, an oversize index the last slot (options on), and the value returned is the slot at the position returned. The nine exported wrappers hand their arguments to the worker unchanged and return its results. R-SLOT0: no header store or element store can lose, move or overwrite the configuration slot, so Len() == len(header)-1 always (R-CAPEQ Stack.Len). R-ELEMINDEP: Reset does not depend on element values. Since every mutator is a list operation on the header it finds, the content after any sequential history is that of the ordered list, by induction on the history. R-CAPEQ (from C03): the fullness test both push loops rely on is exactly len(header) == configured capacity (not the backing array's). stack.index's found flag means exactly 'the slot is not nil'.",
 		NotDecided: "Front/Back (they skip nil slots by a scan) and IsEmpty are covered only through Len/Index; the success flags of Pop/Remove for nil elements (they report false for a nil element although it was removed); capacity interaction (C03), concurrent histories (C10); the argument is an induction over verified single operations, with hand-written recognisers (level other).",
 		Run: func(c *Ctx) {
 			c.ruleInv()
@@ -249,6 +256,7 @@ var properties = map[string]PropSpec{
 			c.ruleCensus(nil, map[string]bool{"R-NIL": true, "R-REFL": true, "R-TA": true, "R-DIV": true})
 			c.ruleCanif()
 			c.ruleMethodValue()
+			c.ruleIfaceCompare()
 			c.ruleReflComplete(nil)
 			c.ruleCensus(nil, map[string]bool{"R-BND": true})
 			// what an index-taking operation leaves behind: the sequence specifications of C01
@@ -266,7 +274,7 @@ var properties = map[string]PropSpec{
 	},
 	"C06": {
 		Level: "other",
-		Explanation: "Decides the clauses of C06 that are visible in the shape of the code. (1) R-TT: the return paths of Condition.Valid are enumerated exactly and compared, row by row, with the table the property states (nil iff keyword non-empty, operator present - a built-in one within 1..6 - and expression non-nil; an installed validity closure decides instead); the same for the expression filter (defaultAssertionExpressionHandler / assertConditionExpressionValue: empty string, nil, Stack under no-nesting, pending error are refused) and for condition.string (parentheses iff requested, padding iff not disabled). (2) R-CONDSTORE: keyword/operator/expression are written only by their setters and only after the acceptance test (operator: non-nil, not a nil pointer wrapped in the interface - no method of the offered operator is invoked before an in-package predicate, itself checked to return reflect's IsNil() for every pointer, has said no - with non-empty Context() and String(); expression: the value the filter returned with ok==true), so a rejected argument leaves the previous value; Cond records Valid()'s verdict via SetErr; Condition.String renders only when Valid()==nil and returns \"\" otherwise. (3) R-NIL/R-REFL restricted to everything reachable from Cond, Init and the setters/getters: no call panics on nil, empty or wrongly typed arguments.",
+		Explanation: "Decides the clauses of C06 that are visible in the shape of the code. (1) R-TT: the return paths of Condition.Valid are enumerated exactly and compared, row by row, with the table the property states (nil iff keyword non-empty, operator present - a built-in one within 1..6 - and expression non-nil; an installed validity closure decides instead); the same for the expression filter (defaultAssertionExpressionHandler / assertConditionExpressionValue: empty string, nil, Stack under no-nesting, pending error are refused) and for condition.string (parentheses iff requested, padding iff not disabled). (2) R-CONDSTORE: keyword/operator/expression are written only by their setters and only after the acceptance test (operator: non-nil, not a nil pointer wrapped in the interface - no method of the offered operator is invoked before an in-package predicate, itself checked to return reflect's IsNil() for every pointer, has said no - with non-empty Context() and String(); expression: the value the filter returned with ok==true), so a rejected argument leaves the previous value; Cond records Valid()'s verdict via SetErr; Condition.String renders only when Valid()==nil and returns \"\" otherwise. (3) R-NIL/R-REFL restricted to everything reachable from Cond, Init and the setters/getters: no call panics on nil, empty or wrongly typed arguments. R-IFACECMP: nowhere in the package are two non-nil interface values compared with == / != (that panics for an uncomparable dynamic type such as a slice-based user Operator), except the confirmed sites on reflect.Type values, library sentinels and operands whose kind was just tested.",
 		NotDecided: "the exact rendered text (spacing, encapsulated expression rendering) - a string-valued functional property (C02's undecided part); behaviour of user Operator/Stringer implementations",
 		Run: func(c *Ctx) {
 			c.ruleInv()
@@ -283,6 +291,7 @@ var properties = map[string]PropSpec{
 			}
 			scope := c.reach(roots...)
 			c.ruleCensus(scope, map[string]bool{"R-NIL": true, "R-REFL": true})
+			c.ruleIfaceCompare() // offered operators/expressions are never compared as interfaces (uncomparable user types panic)
 			c.rep.floor("R-TT", 4)
 			c.rep.floor("R-CONDSTORE", 6)
 			c.rep.floor("R-NIL", 150)
@@ -290,7 +299,7 @@ var properties = map[string]PropSpec{
 	},
 	"C14": {
 		Level: "other",
-		Explanation: "R-DISPATCH: for each of the 12 closure slots' dispatchers (Valid, String, IsEqual, Unmarshal, Marshal, Less, Evaluate on both types; push) the return paths are enumerated: the installed closure is invoked exactly when the slot is non-nil, the built-in implementation does not run on that path, the dispatcher returns the closure's own result (for Stack validity: true exactly when the closure returns nil), and with a nil slot the built-in code runs; an exit taken before the slot is looked at may only refuse (a non-nil error, false, the empty string) unless the receiver is uninitialised - a positive verdict never bypasses an installed closure. R-SETTER: each exported setter stores its argument (nil included, so removal restores the default) into exactly its own slot. R-APPEND/R-POLICY: in the policy-gated append the policy is consulted only while isFull()==false (same memory epoch), once per loop iteration, the appended value is the approved one, a rejection calls setErr with the policy's own error and cannot reach another policy call or append; on every return path that follows a rejection setErr(policy error) has been executed (no condition can suppress the report), and the per-value loop is left only past the last value, on a full stack or on a rejection. R-BASIC: a BASIC stack never stores a presentation policy and records a non-nil error; rendering is gated by canString (table checked: initialised, valid per the validity closure, kind neither 0 nor BASIC).",
+		Explanation: "R-DISPATCH: for each of the 12 closure slots' dispatchers (Valid, String, IsEqual, Unmarshal, Marshal, Less, Evaluate on both types; push) the return paths are enumerated: the installed closure is invoked exactly when the slot is non-nil, the built-in implementation does not run on that path, the dispatcher returns the closure's own result (for Stack validity: true exactly when the closure returns nil), and with a nil slot the built-in code runs; an exit taken before the slot is looked at may only refuse (a non-nil error, false, the empty string) unless the receiver is uninitialised - a positive verdict never bypasses an installed closure. R-SETTER: each exported setter stores its argument (nil included, so removal restores the default) into exactly its own slot. R-APPEND/R-POLICY: in the policy-gated append the policy is consulted only while isFull()==false (same memory epoch), once per loop iteration, the appended value is the approved one, a rejection calls setErr with the policy's own error and cannot reach another policy call or append; on every return path that follows a rejection setErr(policy error) has been executed (no condition can suppress the report), and the per-value loop is left only past the last value, on a full stack or on a rejection. R-BASIC: a BASIC stack never stores a presentation policy and records a non-nil error; rendering is gated by canString (table checked: initialised, valid per the validity closure, kind neither 0 nor BASIC). The closure a dispatcher invokes is the receiver's own on every path (its value mentions the receiver and no other parameter: an operand's or element's policy is never borrowed).",
 		NotDecided: "what the closures themselves do; 'once per offered value' is decided structurally (one call site inside the per-value loop), not as a count over executions",
 		Run: func(c *Ctx) {
 			c.ruleDispatch()
@@ -304,7 +313,7 @@ var properties = map[string]PropSpec{
 	},
 	"C13": {
 		Level: "other",
-		Explanation: "Both clauses of C13 are finite predicates and are decided exactly. R-TT enumerates the return paths of canPushNester (accept = not(isStack and no-nesting)), of Stack.CanNest / Condition.CanNest (initialised and bit clear) and of the Condition-side filter (a Stack is refused exactly under no-nesting; the previous expression is kept because the store is gated, R-CONDSTORE). R-APPEND proves that in the per-value loop the append is gated by the verdict on that very value and by isFull()==false with no write in between. R-APPEND also proves that every offered value gets its turn: the per-value loop visits x[0], x[1], ... up to len(x) and is left only past the last value, on a full stack, or (policy loop) on a rejection - a value refused by the no-nesting test does not end the batch. R-OPTW proves that switching the option writes only the option word, so elements already present are untouched; R-MASK/R-FLAGS prove that the switch itself is exactly |= / &^= of one distinct bit (a redundant 'off' stays off).",
+		Explanation: "Both clauses of C13 are finite predicates and are decided exactly. R-TT enumerates the return paths of canPushNester (accept = not(isStack and no-nesting)), of Stack.CanNest / Condition.CanNest (initialised and bit clear) and of the Condition-side filter (a Stack is refused exactly under no-nesting; the previous expression is kept because the store is gated, R-CONDSTORE). R-APPEND proves that in the per-value loop the append is gated by the verdict on that very value and by isFull()==false with no write in between. R-APPEND also proves that every offered value gets its turn: the per-value loop visits x[0], x[1], ... up to len(x) and is left only past the last value, on a full stack, or (policy loop) on a rejection - a value refused by the no-nesting test does not end the batch. R-OPTW proves that switching the option writes only the option word, so elements already present are untouched; R-MASK/R-FLAGS prove that the switch itself is exactly |= / &^= of one distinct bit (a redundant 'off' stays off). R-TT: Stack.IsNesting answers its scan's verdict for every initialised receiver whatever the option says (no cached or option-dependent shortcut), and condition.isNesting is exactly isStackKind of the expression.",
 		NotDecided: "IsNesting's scan over all elements is checked only through the converter rules of C12 (not claimed here); behaviour under a custom push policy (documented to ignore the option)",
 		Run: func(c *Ctx) {
 			c.ttCanPushNester()
@@ -314,6 +323,7 @@ var properties = map[string]PropSpec{
 			c.ruleCondStores()
 			c.rulePushLoops()
 			c.ruleScanNesting()
+			c.ttIsNestingWrappers()
 			c.ruleOptionWritesOnlyOpt()
 			c.ruleMask() // switching the option on and off is exactly |= and &^= of its own bit
 			c.ruleFlagsDistinct()
@@ -327,7 +337,7 @@ var properties = map[string]PropSpec{
 	},
 	"C18": {
 		Level: "other",
-		Explanation: "R-FLAGS: the option constants are pairwise distinct single bits. R-MASK: shift/unshift/toggle/positive and their wrappers are exactly |=, &^=, test-and-branch on (receiver, parameter) - switching one option cannot alter another. R-TT: setState (both types) is compared row by row with the prescribed tri-state table (set on true, clear on false, toggle on no argument, nothing when uninitialised or read-only unless the flag is the read-only flag itself); the getters IsParen/IsPadded/IsReadOnly/CanNest have the stated polarity on both types. R-SWITCH: every public switch drives the option the documentation names, forwards its argument unchanged, and Stack/Condition agree. R-OPTW (in C13) / write sets: a switch writes only the option word. R-LATCH: FIFO mode is stored only after reading it as false with no write in between. R-PAIR: each setter/getter pair (ID, category, delimiter, auxiliary, error, keyword, operator, expression) goes through one field. R-KINDGUARD: the delimiter is stored only on LIST stacks, the symbol only on non-LIST stacks (the kind itself is immutable after construction). R-ENCDUP: an encapsulation entry is appended only when the duplicate scan found nothing (found-flag or early-return idiom), and the scan compares every character of the new entry (its length is taken from the call sites) with every existing pair, its loops being left only past their bound or on a duplicate. R-LOGLEVEL: the level set is merged with exactly |= / &^= of the resolved level; the shortcuts exist and are guarded (set: level exactly 0 -> none, and only when the argument did resolve to a level; level exactly 65535 -> all; unset: level exactly 65535 -> none); a raw integer is converted to a level only inside 0..65535; the two name tables are mutually inverse.",
+		Explanation: "R-FLAGS: the option constants are pairwise distinct single bits. R-MASK: shift/unshift/toggle/positive and their wrappers are exactly |=, &^=, test-and-branch on (receiver, parameter) - switching one option cannot alter another. R-TT: setState (both types) is compared row by row with the prescribed tri-state table (set on true, clear on false, toggle on no argument, nothing when uninitialised or read-only unless the flag is the read-only flag itself); the getters IsParen/IsPadded/IsReadOnly/CanNest have the stated polarity on both types. R-SWITCH: every public switch drives the option the documentation names, forwards its argument unchanged, and Stack/Condition agree. R-OPTW (in C13) / write sets: a switch writes only the option word. R-LATCH: FIFO mode is stored only after reading it as false with no write in between. R-PAIR: each setter/getter pair (ID, category, delimiter, auxiliary, error, keyword, operator, expression) goes through one field. R-KINDGUARD: the delimiter is stored only on LIST stacks, the symbol only on non-LIST stacks (the kind itself is immutable after construction). R-ENCDUP: an encapsulation entry is appended only when the duplicate scan found nothing (found-flag or early-return idiom), and the scan compares every character of the new entry (its length is taken from the call sites) with every existing pair, its loops being left only past their bound or on a duplicate. R-LOGLEVEL: the level set is merged with exactly |= / &^= of the resolved level; the shortcuts exist and are guarded (set: level exactly 0 -> none, and only when the argument did resolve to a level; level exactly 65535 -> all; unset: level exactly 65535 -> none); a raw integer is converted to a level only inside 0..65535; the two name tables are mutually inverse. R-PAIR for the auxiliary map: a map other than the caller's is stored only where no argument was given or it is known nil (an empty non-nil map is kept as given). R-LOGLEVEL: the merge can be bypassed only by the loop test, the shortcuts and the resolution flag. R-STR VERBATIM (from C02): symbol and delimiter reach the rendering exactly as stored, the symbol is never case-folded. R-TT on getState: the getters' source is the raw bit.",
 		NotDecided: "'reflected in String()' for symbol and encapsulation (string-valued, C02's undecided part); the _random/_addr ID keywords; polarity of lead-once / fold / padding inside the rendering loop",
 		Run: func(c *Ctx) {
 			c.ruleFlagsDistinct()
@@ -345,6 +355,9 @@ var properties = map[string]PropSpec{
 			c.rulePair()
 			c.ruleSettingsGuards()
 			c.ruleLogLevels()
+			c.ruleStrVerbatimSettings() // symbol and delimiter reach the rendering exactly as stored
+			c.ttGetState()
+			c.rep.floor("R-STR", 3)
 			c.rep.floor("R-FLAGS", 26)
 			c.rep.floor("R-MASK", 13)
 			c.rep.floor("R-TT", 10)
@@ -358,7 +371,7 @@ var properties = map[string]PropSpec{
 	},
 	"C17": {
 		Level: "other",
-		Explanation: "R-NIL: census of every nil-panic-capable instruction of the package (pointer loads/stores, field addresses, interface invokes, calls of function values, nil-map writes, external pointer-receiver calls); each is discharged by a non-nil fact on every path (forward path-sensitive DNF facts with relational callee summaries), by provenance, by the proved object invariants (R-INV: condition.cfg, nodeConfig.log, package loggers), or becomes a (conditional) precondition that is checked at every call site; exported entry points may have no precondition (A-RECV: the pointer receiver of the four pointer-receiver methods is assumed non-nil). R-REFL/R-CANIF: the same for every panicking reflect.Value call (validity, kind, CanInterface), and a method is looked up on a Value only where it tested non-zero/non-nil (no method of a nil pointer is bound). R-HANDLE: only Free/Marshal/Init can write a handle; Free stores nil and only when initialised and with the read-only flag tested false on that path; Marshal seats only a Stack IsInit() just confirmed. R-ZERO: each exported value-receiver method is re-analysed under the assumption that the embedded pointer is nil; every return path must yield the zero answer (documented exceptions: Valid/IsEqual an error, IsZero/IsEmpty/IsPadded true, Stack.ID/Kind their constants). R-ELEMINDEP: nothing reachable from Reset branches on an element being nil, and Reset writes only content and lock bookkeeping.",
+		Explanation: "R-NIL: census of every nil-panic-capable instruction of the package (pointer loads/stores, field addresses, interface invokes, calls of function values, nil-map writes, external pointer-receiver calls); each is discharged by a non-nil fact on every path (forward path-sensitive DNF facts with relational callee summaries), by provenance, by the proved object invariants (R-INV: condition.cfg, nodeConfig.log, package loggers), or becomes a (conditional) precondition that is checked at every call site; exported entry points may have no precondition (A-RECV: the pointer receiver of the four pointer-receiver methods is assumed non-nil). R-REFL/R-CANIF: the same for every panicking reflect.Value call (validity, kind, CanInterface), and a method is looked up on a Value only where it tested non-zero/non-nil (no method of a nil pointer is bound). R-HANDLE: only Free/Marshal/Init can write a handle; Free stores nil and only when initialised and with the read-only flag tested false on that path; Marshal seats only a Stack IsInit() just confirmed. R-ZERO: each exported value-receiver method is re-analysed under the assumption that the embedded pointer is nil; every return path must yield the zero answer (documented exceptions: Valid/IsEqual an error, IsZero/IsEmpty/IsPadded true, Stack.ID/Kind their constants). R-ELEMINDEP: nothing reachable from Reset branches on an element being nil, and Reset writes only content and lock bookkeeping. Free is complete: wherever it returns with the read-only flag tested false the handle holds nil (no other condition keeps the instance alive). R-IFACECMP: no comparison of two non-nil interface values outside the confirmed sites.",
 		NotDecided: "panics inside user closures / String() methods and the Go runtime; index-range panics are C08's R-BND (not part of this check)",
 		Run: func(c *Ctx) {
 			c.ruleNoUnsafe()
@@ -366,6 +379,7 @@ var properties = map[string]PropSpec{
 			c.ruleCensus(nil, map[string]bool{"R-NIL": true, "R-REFL": true})
 			c.ruleCanif()
 			c.ruleMethodValue()
+			c.ruleIfaceCompare()
 			c.ruleHandle()
 			c.ruleZeroResults()
 			c.ruleResetElemIndependent()
@@ -390,11 +404,12 @@ var properties = map[string]PropSpec{
 	},
 	"C09": {
 		Level: "proof",
-		Explanation: "Effect analysis over the type-checked SSA of every exported Stack/Condition method (enumerated from go/types on each run): every store, append, map update or lock call whose target is rooted at the receiver - directly or through any chain of in-package callees - must be reached only through the false edge of getState(recv, ronly) (rule R-RO, path-sensitive DNF facts; setState's `|| cf == ronly` arm is followed to the constant each caller passes). Exemptions are exactly those of the statement (SetReadOnly/ReadOnly: the option word; SetErr: the error field; Condition.Init: the handle; Marshal: the handle of an uninitialised receiver). R-RO-ARG: an exported method that writes the shared state of an object handed in as an argument (Transfer's destination) does so only after that object's own read-only flag tested false. R-RO-NESTED: wherever code reachable from an exported method reaches into a nested Stack or Condition (an element of the receiver, a Condition's expression - Reveal, Defrag), every write of the nested object is dominated by the false edge of the nested object's own read-only test (lock bookkeeping excepted), so a writable parent cannot change a read-only child. R-MASK/R-FLAGS prove that switching the read-only bit touches no other bit; R-RO-FREE proves Free returns a non-nil error when the flag is set.",
+		Explanation: "Effect analysis over the type-checked SSA of every exported Stack/Condition method (enumerated from go/types on each run): every store, append, map update or lock call whose target is rooted at the receiver - directly or through any chain of in-package callees - must be reached only through the false edge of getState(recv, ronly) (rule R-RO, path-sensitive DNF facts; setState's `|| cf == ronly` arm is followed to the constant each caller passes). Exemptions are exactly those of the statement (SetReadOnly/ReadOnly: the option word; SetErr: the error field; Condition.Init: the handle; Marshal: the handle of an uninitialised receiver). R-RO-ARG: an exported method that writes the shared state of an object handed in as an argument (Transfer's destination) does so only after that object's own read-only flag tested false. R-RO-NESTED: wherever code reachable from an exported method reaches into a nested Stack or Condition (an element of the receiver, a Condition's expression - Reveal, Defrag), every write of the nested object is dominated by the false edge of the nested object's own read-only test (lock bookkeeping excepted), so a writable parent cannot change a read-only child. R-MASK/R-FLAGS prove that switching the read-only bit touches no other bit; R-RO-FREE proves Free returns a non-nil error when the flag is set. R-TT on getState itself (both types): it answers the raw option bit of an initialised instance, false otherwise, and nothing reachable from it calls user code - so no validity closure or other user code can make the guards fail open.",
 		NotDecided: "effects of user closures and user String()/Operator methods; contents of the user-owned Auxiliary map",
 		Trusted: []string{"root tracing of effects.go (unknown roots fail the check)", "no unsafe and no reflective setters in the package (re-checked each run)"},
 		Run: func(c *Ctx) {
 			c.ruleNoUnsafe()
+			c.ttGetState() // the guard itself: raw bit of an initialised instance, no user code behind it
 			c.ruleRO()
 			c.ruleROArgs()
 			c.ruleRONested()
